@@ -1640,6 +1640,24 @@ def structural_controls(prog: Program, actor: str, module: str,
             text = _splice(src, t2, _seg(src, t2).replace(t2.attr, t1.attr))
             built["subscription tables exchanged"] = _splice(text, t1, _seg(src, t1).replace(t1.attr, t2.attr))
             break
+    # 15. an arm of the event loop reports for a group that another arm bound (a local left over from an earlier pass)
+    try:
+        group_uses = arm_group_uses(prog, cls, roles)
+    except AnalysisError:
+        group_uses = []
+    for use in sorted(group_uses, key=lambda x: (x["callee"] != names["reports"], getattr(x["call"], "lineno", 0))):
+        fi, flow = use["fn"], use["flow"]
+        if fi.module is not mod or use["bad"] or "reports sent for the group of another arm" in built:
+            continue
+        arg = next((a for p_, a in _sink_args(use["call"], roles["reports"] if use["callee"] == names["reports"]
+                                              else roles["su"], {use["param"]})), None) \
+            if use["callee"] in (names["reports"], names["su"]) else None
+        if arg is None:
+            continue
+        locals_ = sorted({n for ns in flow.defs.values() for n in ns})
+        left_over = next((n for n in locals_ if flow.stale(use["node"], n) is not None), None)
+        if left_over is not None:
+            built["reports sent for the group of another arm"] = _splice(src, arg, left_over)
     out = []
     for name, module_, old, new, rule in fallback:
         module_ = built_module.get(name, module_)
@@ -1655,3 +1673,235 @@ def structural_controls(prog: Program, actor: str, module: str,
         else:
             out.append((name, module_, old, new, rule))
     return out
+
+
+# ------------------------------------------------------------------------------ arm-local group (C11.ARM)
+# Which component group an arm of the event loop recomputes / reports for.  Decided by reaching definitions over the
+# CFG of the event loop (and of the private methods it calls): no spelling, no line, no arm order is assumed.
+_SCOPES = (ast.FunctionDef, ast.AsyncFunctionDef, ast.ClassDef)
+
+
+def _bound_inside(expr: ast.AST) -> set[str]:
+    """Names bound by the expression itself (comprehension targets, lambda parameters): not locals of the function."""
+    out: set[str] = set()
+    for n in ast.walk(expr):
+        if isinstance(n, ast.comprehension):
+            out |= {x.id for x in ast.walk(n.target) if isinstance(x, ast.Name)}
+        elif isinstance(n, ast.Lambda):
+            a = n.args
+            out |= {x.arg for x in a.posonlyargs + a.args + a.kwonlyargs}
+            out |= {x.arg for x in (a.vararg, a.kwarg) if x is not None}
+    return out
+
+
+def loaded_names(expr: ast.AST) -> list[str]:
+    """Local names an expression reads (not the ones it binds itself, not nested function bodies)."""
+    inner = _bound_inside(expr)
+    out: list[str] = []
+    stack = [expr]
+    while stack:
+        cur = stack.pop()
+        if isinstance(cur, _SCOPES) and cur is not expr:
+            continue
+        if isinstance(cur, ast.Name) and isinstance(cur.ctx, ast.Load) and cur.id not in inner and cur.id not in out:
+            out.append(cur.id)
+        if isinstance(cur, ast.AugAssign) and isinstance(cur.target, ast.Name) and cur.target.id not in out:
+            out.append(cur.target.id)
+        stack.extend(ast.iter_child_nodes(cur))
+    return out
+
+
+class ArmFlow:
+    """Reaching definitions of one function for the group clause: per CFG node the local names it binds (assignment,
+    loop target, `with ... as`, `except ... as`, `case` captures, walrus) and the names the bound value is made of."""
+
+    def __init__(self, fi: FuncInfo) -> None:
+        from ..engine.cfg import CFG, own_parts
+        from ..engine.util import node_writes
+
+        self.fi = fi
+        self.cfg = CFG(fi.node, fi.file)
+        self._own_parts = own_parts
+        self.subject: dict[int, ast.AST] = {}  # id(match_case) -> the subject its captures are taken from
+        for n in walk_no_nested(fi.node):
+            if isinstance(n, ast.Match):
+                for c in n.cases:
+                    self.subject[id(c)] = n.subject
+        self.defs: dict[int, set[str]] = {}
+        for n in self.cfg.nodes:
+            if n.ast is None:
+                continue
+            names = {w.id for w in node_writes(self.cfg, n.id) if isinstance(w, ast.Name)}
+            if n.kind == "case":
+                for p in ast.walk(n.ast.pattern):  # type: ignore[attr-defined]
+                    if isinstance(p, (ast.MatchAs, ast.MatchStar)) and p.name:
+                        names.add(p.name)
+                    elif isinstance(p, ast.MatchMapping) and p.rest:
+                        names.add(p.rest)
+            if n.kind == "handler" and getattr(n.ast, "name", None):
+                names.add(n.ast.name)  # type: ignore[attr-defined]
+            if isinstance(n.ast, (ast.Import, ast.ImportFrom)) and n.kind not in ("test", "for", "with", "case"):
+                names |= {(a.asname or a.name).split(".")[0] for a in n.ast.names}
+            if names:
+                self.defs[n.id] = names
+        self.loops = [n.id for n in self.cfg.nodes if n.kind in ("for", "while")]
+        self._members: dict[int, set[int]] = {}
+
+    def defs_of(self, name: str) -> set[int]:
+        return {nid for nid, names in self.defs.items() if name in names}
+
+    def members(self, head: int) -> set[int]:
+        """The nodes of the loop with this header (on a cycle through it, normal edges)."""
+        from ..engine.util import normal_edge
+
+        if head not in self._members:
+            fwd = self.cfg.reachable([head], edge_ok=normal_edge, include_src=False)
+            back = self.cfg.co_reachable([head], edge_ok=normal_edge)
+            self._members[head] = (fwd & back) | ({head} if head in fwd else set())
+        return self._members[head]
+
+    def sources(self, nid: int) -> list[str]:
+        """The local names the value(s) bound at this node are made of.  An element taken from an iterated
+        collection (`for ids in self._tracked`, `for ids in groups`) names *every* member of the collection, not
+        one remembered group: only the elements of a literal display are followed."""
+        n = self.cfg.nodes[nid]
+        if n.ast is None:
+            return []
+        if n.kind == "for":
+            it = n.ast.iter  # type: ignore[attr-defined]
+            if isinstance(it, (ast.List, ast.Tuple, ast.Set)):
+                return loaded_names(it)
+            return []
+        parts = list(self._own_parts(n))
+        if n.kind == "case" and id(n.ast) in self.subject:
+            parts.append(self.subject[id(n.ast)])
+        out: list[str] = []
+        for p in parts:
+            for name in loaded_names(p):
+                if name not in out:
+                    out.append(name)
+        return out
+
+    def reaching(self, nid: int, name: str) -> list[int]:
+        """Definitions of `name` that can reach the node (no other definition in between)."""
+        out: list[int] = []
+        seen = {nid}
+        stack = [nid]
+        while stack:
+            cur = stack.pop()
+            for p, _lab in self.cfg.pred[cur]:
+                if p in seen:
+                    continue
+                seen.add(p)
+                if name in self.defs.get(p, ()):
+                    out.append(p)
+                    continue
+                stack.append(p)
+        return out
+
+    def stale(self, nid: int, name: str) -> dict[str, Any] | None:
+        """The value of `name` read at the node can come from an earlier iteration of an enclosing loop (or from
+        nowhere): the name is bound somewhere inside the loop, but a path from the loop header to the node binds it
+        nowhere.  A name the loop header itself binds, or that is bound only outside the loop, is not stale."""
+        from ..engine.util import normal_edge
+
+        defs = self.defs_of(name)
+        for head in self.loops:
+            inside = self.members(head)
+            if nid not in inside or head in defs:
+                continue
+            here = sorted(d for d in defs if d in inside)
+            if not here:
+                continue
+            wit = self.cfg.path(head, [nid], avoid=(defs - {nid}) | {head}, edge_ok=normal_edge, include_src=False)
+            if wit is not None:
+                return {"head": head, "path": wit, "defs": here,
+                        "before": sorted(d for d in defs if d not in inside)}
+        return None
+
+
+def _sink_args(call: ast.Call, callee: FuncInfo, params: set[str]) -> list[tuple[str, ast.AST]]:
+    """(parameter, argument expression) for the group-carrying parameters of the callee that the call supplies."""
+    names = callee.params[1:] if callee.params and callee.params[0] in ("self", "cls") else callee.params
+    bound: dict[str, ast.AST] = {}
+    for p, a in zip(names, call.args):
+        if isinstance(a, ast.Starred):
+            break
+        bound[p] = a
+    for k in call.keywords:
+        if k.arg is not None:
+            bound[k.arg] = k.value
+    return [(p, bound[p]) for p in names if p in params and p in bound]
+
+
+def arm_group_uses(prog: Program, cls: ClassInfo, roles: dict[str, FuncInfo]) -> list[dict[str, Any]]:
+    """Every call, in the event loop or a private method it runs, that names the component group to recompute or
+    report for (first parameter of the recomputing / reporting / calculating role, or a parameter of a helper that
+    is handed on to one), with the verdict of the reaching-definitions test for each local the group is made of:
+
+      {"fn", "call", "callee", "param", "node", "bad": [{"name", "at", "via", "head", "path", "defs", "before"}]}"""
+    from ..engine.util import method_call
+
+    run_fi = roles["run"]
+    stop = {fi.name for r, fi in roles.items() if r != "run"}
+    funcs = [fi for fi in reachable_methods(prog, cls, run_fi, stop) if fi.cls is not None]
+    sinks: dict[str, set[str]] = {}
+    callee_of: dict[str, FuncInfo] = {}
+    for role in ("su", "reports", "calc"):
+        fi = roles[role]
+        ps = fi.params[1:] if fi.params and fi.params[0] in ("self", "cls") else fi.params
+        if not ps:
+            raise AnalysisError(f"{fi.qual}: no parameter names the component group")
+        sinks.setdefault(fi.name, set()).add(ps[0])
+        callee_of[fi.name] = fi
+    flows = {fi.name: ArmFlow(fi) for fi in funcs}
+    for fi in funcs:
+        callee_of.setdefault(fi.name, fi)
+    uses: dict[tuple[str, int, str], dict[str, Any]] = {}
+    changed = True
+    rounds = 0
+    while changed:
+        changed = False
+        rounds += 1
+        if rounds > 12:
+            raise AnalysisError(f"{run_fi.qual}: the flow of component groups through helpers does not settle")
+        for fi in funcs:
+            flow = flows[fi.name]
+            cfg = flow.cfg
+            own_params = set(fi.params) - {"self", "cls"}
+            for node in cfg.nodes:
+                if node.ast is None:
+                    continue
+                for part in flow._own_parts(node):
+                    for call in [c for c in ast.walk(part) if isinstance(c, ast.Call)]:
+                        target = next((m for m in sinks if method_call(call, "self", m)), None)
+                        if target is None:
+                            continue
+                        for param, arg in _sink_args(call, callee_of[target], sinks[target]):
+                            key = (fi.name, id(call), param)
+                            bad: list[dict[str, Any]] = []
+                            seen: set[tuple[int, str]] = set()
+                            work: list[tuple[int, str, list[str]]] = [(node.id, nm, []) for nm in loaded_names(arg)]
+                            while work:
+                                at, name, via = work.pop(0)
+                                if (at, name) in seen or name in ("self", "cls"):
+                                    continue
+                                seen.add((at, name))
+                                defs = flow.defs_of(name)
+                                if name in own_params:
+                                    free = not defs or cfg.path(cfg.entry, [at], avoid=defs - {at}) is not None
+                                    if free and fi is not run_fi and name not in sinks.setdefault(fi.name, set()):
+                                        sinks[fi.name].add(name)  # the helper's callers choose the group
+                                        changed = True
+                                if not defs:
+                                    continue  # a global / a parameter that is never re-bound
+                                st = flow.stale(at, name)
+                                if st is not None:
+                                    bad.append({"name": name, "at": at, "via": via, **st})
+                                    continue
+                                for d in flow.reaching(at, name):
+                                    for src in flow.sources(d):
+                                        work.append((d, src, via + [name]))
+                            uses[key] = {"fn": fi, "flow": flow, "call": call, "callee": target, "param": param,
+                                         "node": node.id, "bad": bad}
+    return list(uses.values())
